@@ -3,8 +3,8 @@ import gens
 from props.common import TRUSTED_BASE, ASSUMPTIONS
 
 ID = "C05"
-LEAN_MODULES = ["LexVerif.Props.C05"]
-GEN = []
+LEAN_MODULES = ["LexVerif.Props.C05", "LexVerif.Props.RoundNE", "LexVerif.Props.TablesParse"]
+GEN = ["parse_tables"]
 TRUSTED = TRUSTED_BASE + [
     "Bellerophon and the big-integer slow paths for generic radices are NOT proved in Lean; proved: the oracle, the per-radix tables; "
     "the algorithms are compared with the oracle on per-radix number-theoretic worst cases",
@@ -14,6 +14,11 @@ RULE = ("per radix 2..36: G-hard worst cases (m*r^q closest to a float midpoint,
         "formats with exponent radix in {10, radix, base}. non-trivial = accepted, finite non-zero result; distinct = distinct op lines")
 
 MIXED = [(4, 2), (8, 2), (16, 2), (32, 2), (16, 4)]
+
+
+TECHNIQUE = 'Lean 4 proof (oracle; per-radix tables incl. split_radix/large powers kernel-checked for all 35 radices) + correspondence on per-radix worst cases and mixed-base formats'
+LEVEL_TEXT = 'Proved in Lean: the oracle (roundNE/litBits) and, for all 35 radices, that small/large power tables, Bellerophon tables, limits, steps and split_radix regenerated from the crate equal their closed forms (this is the theorem family that exposes a wrong split_radix arm). NOT proved: binary/slow_binary/Bellerophon/byte_comp/digit_comp algorithms; they are compared with the oracle on per-radix worst cases, exponent cut-offs, long tails and the five mixed-base formats x three exponent radices. Partial proof, stated as such.'
+LEVEL_NOTE = 'Trusted: Lean kernel; rustc; R dump+generator; differential harness. No Lean model of the power-of-two / generic-radix conversion algorithms yet.'
 
 
 def feature_sets(tier):
